@@ -39,6 +39,27 @@ def crates_root():
 _crates_synced = False
 
 
+def size_threshold(fs='default', files=('interner.rs', 'registry.rs', 'portable.rs'), cap=256):
+    """largest integer constant (<= cap) that the code of the table-like structures compares sizes with, read from the current MIR and named consts:
+    bounded histories are made longer than it, so that a size threshold in the code (small-table fast paths, spill limits) lies inside the bound"""
+    import re
+    from mirsym import mir as MIRmod
+    fns, _, _ = load_mir(fs)
+    best = 0
+    for f in list(fns.values()) + [g for gs in getattr(fns, 'instances', {}).values() for g in gs]:
+        if not any(x in (f.name + ' ' + ' '.join(f.lines[:1])) for x in files) and not (f.impl and any(f.impl[0].endswith(x) for x in files)): continue
+        for ls in f.blocks.values():
+            for l in ls:
+                for m in re.finditer(r'const (\d+)_(?:usize|u32|u64)', l):
+                    v = int(m.group(1))
+                    if v <= cap: best = max(best, v)
+                for m in re.finditer(r'const (?:[\w:]+::)?([A-Z][A-Z0-9_]+)\b', l):
+                    c = MIRmod.NAMED_CONSTS.get(m.group(1))
+                    mm = re.match(r'(\d+)_', c or '')
+                    if mm and int(mm.group(1)) <= cap: best = max(best, int(mm.group(1)))
+    return best
+
+
 def evidence_dir():
     """/verif/evidence describes runs against /repo only; runs against another checkout (dev: seeded changes, background runs) keep theirs with their build"""
     return os.path.join(VERIF, 'evidence') if REPO == '/repo' else os.path.join(BUILD, 'evidence')
